@@ -7,7 +7,7 @@ import ast
 
 from sa.model import AnalysisError, access_path, unparse
 
-from .shared import calls_in, deref, key, loc, reaching_defs
+from .shared import calls_in, cond_implies, deref, emptiness_atom, key, loc, membership_atom, reaching_defs, slice_attrs
 
 
 def lookup_func(ctx):
@@ -83,13 +83,9 @@ def r1(ctx, R):
         skip = [fa for fa in facts if fa[0] == "cond" and fa[2] is False and "filter_public" in fa[1]]
         if skip:
             # the private flag combines own visibility and the container's default
-            flag_names = {x.id for fa in skip for x in ast.walk(ast.parse(fa[1], mode="eval").body) if isinstance(x, ast.Name)} - {"filter_public"}
             srcs = set()
-            for nm in flag_names:
-                for v in reaching_defs(ctx, g, r, nm):
-                    if v is not None and v != "param":
-                        srcs |= {x.attr for x in ast.walk(v) if isinstance(x, ast.Attribute)}
-            srcs |= {x.attr for fa in skip for x in ast.walk(ast.parse(fa[1], mode="eval").body) if isinstance(x, ast.Attribute)}
+            for fa in skip:
+                srcs |= slice_attrs(ctx, g, ast.parse(fa[1], mode="eval").body, ctx.m.enclosing_stmt(r))
             if {"vis", "def_vis"} <= srcs:
                 R.ok("C05.R1", g.short, key(g, r), loc(g, r), "match dominated by the skip `filter_public and is_private` (own vis + container default)")
             else:
@@ -122,7 +118,24 @@ def r2(ctx, R):
             continue
         st = ctx.m.enclosing_stmt(c)
         facts = F.at(c) or set()
-        only = [fa for fa in facts if fa[0] == "cond" and fa[2] is False and "only_list" in fa[1] and " not in " in fa[1]] + [fa for fa in facts if fa[0] == "in" and "only_list" in fa[2]]
+        # some dominating condition must imply: the ONLY list is empty or the name is in it
+        is_only = lambda t: t.split(".")[-1] == "only_list"
+
+        def atom(e):
+            return membership_atom(e, is_only) or emptiness_atom(e, is_only)
+
+        def goal(a):
+            return any(v for k_, v in a.items() if k_.startswith("in:")) or any(v for k_, v in a.items() if k_.startswith("empty:"))
+
+        only = [fa for fa in facts if fa[0] == "in" and "only_list" in fa[2]]
+        for fa in facts:
+            if fa[0] == "cond" and "only_list" in fa[1]:
+                try:
+                    ex = ast.parse(fa[1], mode="eval").body
+                except SyntaxError:
+                    continue
+                if cond_implies(ex, fa[2], goal, atom):
+                    only.append(fa)
         k = key(f, st)[:90]
         if only:
             R.ok("C05.R2", f.short, k + " :: ONLY", loc(f, c), "dominated by the ONLY membership test")
